@@ -46,7 +46,10 @@ func (self *BinaryConv) do(ctx context.Context, src []byte, desc *thrift.TypeDes
 	}
 
 	if len(src) == 0 {
-		// empty body
+		// empty body: only a struct has an empty encoding (a bare STOP)
+		if desc.Type() != thrift.STRUCT {
+			return newError(meta.ErrRead, "empty json for non-struct type "+desc.Type().String(), nil)
+		}
 		if self.opts.EnableHttpMapping && req != nil {
 			st := desc.Struct()
 			var reqs = thrift.NewRequiresBitmap()
